@@ -405,6 +405,8 @@ def run_property(ctx):
             lint_c13(ctx)
         if spec.get('state_lint'):
             lint_state(ctx)
+            if spec.get('lint') != 'c13':
+                lint_c13(ctx)
         if spec.get('lint') == 'c14':
             lint_c14(ctx)
         for s in spec['suites']:
